@@ -23,7 +23,7 @@ def sh(cmd, timeout=3600):
 
 
 def do_import():
-    for d in sorted(glob.glob("/tmp/wt/C*/out/m*")) + sorted(glob.glob("/tmp/wt2/C*/out/m*")) + sorted(glob.glob("/tmp/wt3/C*/out/m*")) + sorted(glob.glob("/tmp/wt4/C*/out/m*")) + sorted(glob.glob("/tmp/wt5/C*/out/m*")) + sorted(glob.glob("/tmp/wt6/C*/out/m*")) + sorted(glob.glob("/tmp/wt7/C*/out/m*")) + sorted(glob.glob("/tmp/wt8/C*/out/m*")):
+    for d in sorted(glob.glob("/tmp/wt/C*/out/m*")) + sorted(glob.glob("/tmp/wt2/C*/out/m*")) + sorted(glob.glob("/tmp/wt3/C*/out/m*")) + sorted(glob.glob("/tmp/wt4/C*/out/m*")) + sorted(glob.glob("/tmp/wt5/C*/out/m*")) + sorted(glob.glob("/tmp/wt6/C*/out/m*")) + sorted(glob.glob("/tmp/wt7/C*/out/m*")) + sorted(glob.glob("/tmp/wt8/C*/out/m*")) + sorted(glob.glob("/tmp/wt9/C*/out/m*")):
         pid = d.split("/")[3]; m = os.path.basename(d)
         if d.startswith("/tmp/wt2/"):
             m = "r2" + m
@@ -39,6 +39,8 @@ def do_import():
             m = "r7" + m
         if d.startswith("/tmp/wt8/"):
             m = "r8" + m
+        if d.startswith("/tmp/wt9/"):
+            m = "r9" + m
         dst = f"{V}/seeded/{pid}-{m}"
         if not os.path.exists(f"{d}/patch.diff"):
             continue
